@@ -1,7 +1,7 @@
 //! Reference register: N bits in a u128, written and read bit by bit through the positions that
 //! the layout description assigns to a field element. Small enough to be correct by inspection.
 
-use crate::layout::{Field, Layout};
+use crate::layout::Field;
 
 /// Write the W-bit pattern `v` through field `f`, element `idx`: the k-th position receives bit k.
 pub fn write(state: u128, f: &Field, idx: u32, v: u128) -> u128 {
@@ -20,25 +20,6 @@ pub fn read(state: u128, f: &Field, idx: u32) -> u128 {
         v |= ((state >> p) & 1) << k;
     }
     v
-}
-
-/// Per-bit provenance for diagnostics: which step last wrote each bit (usize::MAX = initial value).
-#[derive(Clone, Debug)]
-pub struct Provenance {
-    pub last_writer: Vec<usize>,
-}
-
-impl Provenance {
-    pub fn new(l: &Layout) -> Self {
-        Provenance { last_writer: vec![usize::MAX; l.bits as usize] }
-    }
-    pub fn note_write(&mut self, f: &Field, idx: u32, step: usize) {
-        for p in f.positions(idx) {
-            if (p as usize) < self.last_writer.len() {
-                self.last_writer[p as usize] = step;
-            }
-        }
-    }
 }
 
 #[cfg(test)]
